@@ -58,10 +58,11 @@ variable {α : Type} [Field α] [LinearOrder α] [IsStrictOrderedRing α]
 def SameCore (a b : SState α) : Prop :=
   a.values = b.values ∧ a.iter = b.iter ∧ a.gain = b.gain ∧ a.hist = b.hist ∧ a.hidx = b.hidx
 
-/-- documented thresholds: ε(1−γ)/γ for 0 < γ < 1 (span and max_diff alike), ε when γ = 1; γ = 0 has none -/
+/-- documented thresholds: ε(1−γ)/γ for 0 < γ < 1 (span and max_diff alike), ε when γ = 1 (and when γ = 0, where one
+    sweep is exact) -/
 theorem threshold_def (γ ε : α) :
     (γ = 1 → threshold γ ε = some ε) ∧ (γ ≠ 1 → γ ≠ 0 → threshold γ ε = some (ε * (1 - γ) / γ)) ∧
-    (γ = 0 → threshold γ ε = none) := by
+    (γ = 0 → threshold γ ε = some ε) := by
   unfold threshold
   refine ⟨fun h => by simp [h], fun h1 h0 => by simp [h1, h0], fun h => by simp [h]⟩
 
